@@ -116,6 +116,21 @@ union UGrand extends UChild
     deep
     deeper List(Plain)?
 
+struct Coll
+    "a field named like the union tag that carries the struct, holding an object"
+    coll Map(String, Int32)
+    z Int32?
+
+struct Wrap
+    wrap Plain
+    w2 UClosed?
+
+union UColl
+    coll Coll
+    wrap Wrap
+    nwrap Wrap?
+    plain
+
 alias APrim = Int32(min_value=-5, max_value=5)
 alias AStr = String(pattern="[a-c]+")
 alias APlain = Plain
@@ -129,7 +144,7 @@ alias ARes = Res
 PRIM_LEAVES = ['Int32', 'Int32(min_value=-5, max_value=5)', 'UInt32', 'Int64', 'UInt64(max_value=18446744073709551615)',
                'Float32', 'Float64(min_value=-1.5, max_value=2.5)', 'Boolean', 'String', 'String(min_length=1, max_length=3)',
                'String(pattern="[a-c]+")', 'Bytes', 'Timestamp("%Y-%m-%dT%H:%M:%SZ")', 'Timestamp("%Y")']
-USER_LEAVES = ['Plain', 'Empty', 'AllOpt', 'C', 'G', 'Res', 'ResC', 'File', 'UOpen', 'UClosed', 'UnionCc', 'UChild', 'UnionCc2', 'UGrand', 'nb.Foreign', 'nb.ForeignU']
+USER_LEAVES = ['Plain', 'Empty', 'AllOpt', 'C', 'G', 'Res', 'ResC', 'File', 'UOpen', 'UClosed', 'UnionCc', 'UChild', 'UnionCc2', 'UGrand', 'UColl', 'nb.Foreign', 'nb.ForeignU']
 ALIAS_LEAVES = ['APrim', 'AStr', 'APlain', 'ANull', 'AList', 'AliasA', 'AliasU', 'ARes', 'nb.ForeignA']
 NULLABLE_LEAVES = {'ANull'}
 
